@@ -1,18 +1,13 @@
 // TRUSTED PRELUDE — pieces of op_repeat.rs outside the reach of Verus here.
-// `History::is_duplicate_zero_length_match` (HashMap keyed by the address of the Repeat node) and the
-// greedy variable-length iterator's backtracking stack are summarised without a functional contract:
-// their *results* are unconstrained, so everything proved around them holds for any behaviour.
+// `History::is_duplicate_zero_length_match` (HashMap keyed by the address of the Repeat node) is summarised
+// without a functional contract: its *result* is unconstrained, so everything proved around it holds for
+// either answer.
 impl<'a> ReMatcher<'a> {
     #[verifier::external_body]
     pub fn is_duplicate_zero_length_match(&self, repeat: &Repeat, position: usize) -> (r: bool)
     { unimplemented!() }
 }
 
-// GreedyRepeatIterator::next is verified for memory safety only: the sequence it yields is left unspecified
-// (an uninterpreted function constrains nothing; it is listed here because the scan treats `uninterp` as trusted text)
-impl<'a> IterView for GreedyRepeatIterator<'a> {
-    uninterp spec fn remaining(&self) -> Seq<usize>;
-}
 
 pub assume_specification<'a, T: Copy>[ Option::<&'a T>::copied ](o: Option<&'a T>) -> (r: Option<T>)
     ensures o is Some ==> r == Some(*o->0), o is None ==> r is None;
